@@ -270,6 +270,16 @@ example : (session (scripted 0) [["a", "b"], ["c", "d"]]
       (⟨[], [Out.err 1, Out.err 2, Out.err 3, Out.ok "yes"]⟩ : Obj String Nat String (List (Out Nat String)))).1.heap
     = [[("a", .err 1), ("b", .err 2)], [("c", .err 3), ("d", .ok "yes")]] := by decide
 
+/-- the result has one entry per `source.authenticate` call — also when the same (or an equal) source is produced
+more than once: entries are appended, never merged -/
+theorem one_entry_per_call (auth : σ → S → Out ε ρ × S) (srcs : List σ) (s : S) :
+    (authenticate auth srcs s).result.length = (loop auth srcs (init s)).calls.length := by
+  rw [(calls_are_attempts auth srcs s).1, List.length_map]
+
+/-- `[P, K, P]`: the re-tried source appears twice, in attempt order, the success last -/
+example : authenticate (scripted 0) ["P", "K", "P", "Z"] [Out.err 1, Out.err 2, Out.ok "yes", Out.err 9]
+    = .returned [("P", .err 1), ("K", .err 2), ("P", .ok "yes")] := by decide
+
 /-! ## non-vacuity -/
 
 /-- three sources: A raises, B succeeds, C is never tried -/
